@@ -31,7 +31,7 @@ theorem py_peer_orientation : Py.peer_orientation.ok = false ∨
       rw [this, Int.floor_intCast]; rfl
     push_cast at h ⊢
     rw [h]
-    push_cast
-    try ring_nf
+    all_goals (try push_cast)
+    all_goals (try ring_nf)
 
 end HV.Bridge
